@@ -77,33 +77,46 @@ def rule_r3(chk, db, conf):
     prep = [b for b in fscore.fs_bodies(db) if any(st["rv"]["k"] == "agg" and st["rv"].get("adt", "").endswith("::FileWriter") for _, _, st in b.stmts())]
     if len(prep) != 1:
         raise AnchorMissing("FileWriter is constructed in %d bodies (expected one: prepare_file_write)" % len(prep))
-    prep = prep[0]
-    proot = db.root_of(prep)
-    for bi, si, st in prep.stmts():
-        rv = st["rv"]
-        if rv["k"] == "agg" and rv.get("adt", "").endswith("::FileWriter"):
-            m = dict(zip(rv["fields"], rv["ops"]))
-            armed = cleanup_flag(db)
-            v0 = _state_value(prep, m.get(armed[0])) if armed else None
-            chk.verdict(bool(armed) and v0 is not None and v0 in armed[1], "R3", "cleanup-armed-initially", prep.loc(bi),
-                        "a new FileWriter does not start in the state in which Drop removes the temp file (field %s = %s, Drop cleans under %s)" % (
-                            armed[0] if armed else "?", v0, sorted(map(str, armed[1])) if armed else "?"))
-            # writer <- File::create(tmp_path)
-            sl = flow.backward(prep, m["writer"], at=bi)
-            creates = [(cb, t) for cb, t, _ in sl.calls if short(callee_def(t)) in ("create", "create_new") and "File" in callee_def(t)]
-            ok = False
-            for cb, t in creates:
-                s2 = flow.backward(prep, t["args"][0], at=cb)
-                s3 = flow.backward(prep, m["tmp_path"], at=bi)
-                ok = bool({c_ for c_, _, _ in s2.calls} & {c_ for c_, _, _ in s3.calls})
-            chk.verdict(ok, "R3", "writer-is-temp-file", prep.loc(bi), "the FileWriter's writer is not a file created at its tmp_path")
-            # no cancellation point between creating the file and arming its cleanup: the created file is not the output of an awaited future
-            awaited = [cb for cb, t, _ in sl.calls if callee_def(t).endswith("future::Future::poll") or callee_def(t).endswith("IntoFuture::into_future")]
-            yields = [x for x in prep.live_blocks() if prep.blocks[x]["term"]["k"] == "yield" and creates and
-                      any(flow.can_reach(prep, cb, x) for cb, _ in creates) and flow.can_reach(prep, x, bi)]
-            chk.verdict(bool(creates) and not awaited and not yields, "R3", "create-then-arm-without-await", prep.loc((awaited or yields or [bi])[0]),
-                        "the temp file is created by an awaited operation before the FileWriter (whose Drop removes it) exists: a request future dropped "
-                        "at that await leaves the file behind")
+    proot = db.root_of(prep[0])
+    tg = fscore.temp_guard(db)
+    if tg is None:
+        raise AnchorMissing("no type of the backend removes a temp file in its Drop impl")
+    G, PATHF, _ = tg
+    prep = inline.inlined(db, prep[0])       # the guard may be built by a constructor of its own (`TmpFile::armed(path)`)
+    w_aggs = [(bi, st["rv"]) for bi, si, st in prep.stmts() if st["rv"]["k"] == "agg" and st["rv"].get("adt", "").endswith("::FileWriter")]
+    g_aggs = [(bi, st["rv"]) for bi, si, st in prep.stmts() if st["rv"]["k"] == "agg" and st["rv"].get("adt", "").rsplit("::", 1)[-1] == G]
+    if not w_aggs or not g_aggs:
+        raise AnchorMissing("construction of the FileWriter / of the temp-file guard %s not found in prepare_file_write" % G)
+    for bi, rv in g_aggs:
+        m = dict(zip(rv["fields"], rv["ops"]))
+        armed = cleanup_flag(db)
+        v0 = _state_value(prep, m.get(armed[0])) if armed else None
+        chk.verdict(bool(armed) and v0 is not None and v0 in armed[1], "R3", "cleanup-armed-initially", prep.loc(bi),
+                    "a new %s does not start in the state in which Drop removes the temp file (field %s = %s, Drop cleans under %s)" % (
+                        G, armed[0] if armed else "?", v0, sorted(map(str, armed[1])) if armed else "?"))
+        # the writer's file <- File::create(<the guarded path>)
+        wbi, wrv = w_aggs[0]
+        creates = []
+        sl = None
+        for f_, o_ in zip(wrv["fields"], wrv["ops"]):
+            s_ = flow.backward(prep, o_, at=wbi)
+            cs_ = [(cb, t) for cb, t, _ in s_.calls if short(callee_def(t)) in ("create", "create_new") and "File" in callee_def(t)]
+            if cs_ and (G == "FileWriter" or f_ not in [ff for ff, oo in zip(wrv["fields"], wrv["ops"]) if G in (prep.locals[flow.op_place(oo)["l"]] if flow.op_place(oo) else "")]):
+                creates, sl = cs_, s_
+                break
+        ok = False
+        for cb, t in creates:
+            s2 = flow.backward(prep, t["args"][0], at=cb)
+            s3 = flow.backward(prep, m[PATHF], at=bi)
+            ok = bool({c_ for c_, _, _ in s2.calls} & {c_ for c_, _, _ in s3.calls})
+        chk.verdict(ok, "R3", "writer-is-temp-file", prep.loc(bi), "the FileWriter's writer is not a file created at the guarded temp path")
+        # no cancellation point between creating the file and arming its cleanup: the created file is not the output of an awaited future
+        awaited = [cb for cb, t, _ in (sl.calls if sl else []) if callee_def(t).endswith("future::Future::poll") or callee_def(t).endswith("IntoFuture::into_future")]
+        yields = [x for x in prep.live_blocks() if prep.blocks[x]["term"]["k"] == "yield" and creates and
+                  any(flow.can_reach(prep, cb, x) for cb, _ in creates) and flow.can_reach(prep, x, bi)]
+        chk.verdict(bool(creates) and not awaited and not yields, "R3", "create-then-arm-without-await", prep.loc((awaited or yields or [bi])[0]),
+                    "the temp file is created by an awaited operation before the guard (whose Drop removes it) exists: a request future dropped "
+                    "at that await leaves the file behind")
     object_fns = {n for n in conf if short(n) in ("get_object_path", "resolve_upload_part_path")}
     for b, bi, t, idxs in fscore.effects(db):
         nm = short(callee_def(t))
@@ -126,9 +139,10 @@ def rule_r3(chk, db, conf):
     for bi, t in ren:
         s0 = flow.backward(inner, t["args"][0], at=bi)
         s1 = flow.backward(inner, t["args"][1], at=bi)
-        f0 = {f for a, f in s0.fields if a == "FileWriter"}
-        f1 = {f for a, f in s1.fields if a == "FileWriter"} | ({"dest_path"} if any(short(callee_def(x)) == "dest_path" for _, x, _ in s1.calls) else set())
-        chk.verdict("tmp_path" in f0 and "dest_path" in f1, "R3", "done.rename-direction", inner.loc(bi), "rename is not tmp_path -> dest_path (from %s to %s)" % (sorted(f0), sorted(f1)))
+        f0 = {f for a, f in s0.fields if a in ("FileWriter", G)}
+        f1 = {f for a, f in s1.fields if a in ("FileWriter", G)} | ({"dest_path"} if any(short(callee_def(x)) == "dest_path" for _, x, _ in s1.calls) else set())
+        chk.verdict(PATHF in f0 and "dest_path" in f1 and PATHF not in f1, "R3", "done.rename-direction", inner.loc(bi),
+                    "rename is not <guarded temp path> -> dest_path (from %s to %s)" % (sorted(f0), sorted(f1)))
         o = flow.outcomes_of_call(inner, bi)
         cont = o.get("Continue") | o.get("Ok")
         armed = cleanup_flag(db)
@@ -147,16 +161,16 @@ def rule_r3(chk, db, conf):
         oks = [w["bi"] for w in flow.return_writes(inner) if w["kind"] == "Ok"]
         chk.verdict(bool(cont) and flow.must_pass(inner, oks, cont), "R3", "done.ok-only-after-rename", inner.loc(bi), "done() can return Ok without the rename having succeeded")
     # Drop removes the temp file in the armed state
-    drops = [b for b in fscore.fs_bodies(db) if b.impl_trait == "core::ops::drop::Drop" and "FileWriter" in b.impl_self]
-    chk.floor("R3.drop", len(drops), 1, "Drop impl for FileWriter")
+    drops = tg[2]
+    chk.floor("R3.drop", len(drops), 1, "Drop impl of the temp-file guard")
     armed = cleanup_flag(db)
     for b in drops:
         rm = [(bi, t) for bi, t in b.calls() if short(callee_def(t)) == "remove_file"]
         ok = False
         for bi, t in rm:
             sl = flow.backward(b, t["args"][0], at=bi)
-            ok = ("FileWriter", "tmp_path") in sl.fields and bool(armed)
-        chk.verdict(ok, "R3", "drop-cleans-temp", b.loc(), "Drop for FileWriter does not remove tmp_path under a state field of the writer")
+            ok = (G, PATHF) in sl.fields and bool(armed)
+        chk.verdict(ok, "R3", "drop-cleans-temp", b.loc(), "Drop for %s does not remove %s under a state field of its own" % (G, PATHF))
 
 
 def _state_value(body, op):
@@ -188,9 +202,8 @@ def cleanup_flag(db):
     if db.dir in _FLAG:
         return _FLAG[db.dir]
     res = None
-    for b in fscore.fs_bodies(db):
-        if b.impl_trait != "core::ops::drop::Drop" or "FileWriter" not in b.impl_self:
-            continue
+    tg = fscore.temp_guard(db)
+    for b in (tg[2] if tg else []):
         for bi, t in b.calls():
             if short(callee_def(t)) != "remove_file":
                 continue
@@ -199,7 +212,7 @@ def cleanup_flag(db):
                 if t2["k"] != "switch":
                     continue
                 dsl = flow.backward(b, t2["discr"], at=s2)
-                fs = [f for a, f in dsl.fields if a == "FileWriter" and f not in ("tmp_path", "dest_path", "writer")]
+                fs = [f for a, f in dsl.fields if a == tg[0] and f not in (tg[1], "dest_path", "writer")]
                 if len(fs) != 1:
                     continue
                 edges = b.succ_edges(s2)
@@ -249,16 +262,22 @@ def _path_producers(db, body, sl, depth=0):
 
 def rule_r4(chk, db, conf):
     prep = [b for b in fscore.fs_bodies(db) if any(st["rv"]["k"] == "agg" and st["rv"].get("adt", "").endswith("::FileWriter") for _, _, st in b.stmts())][0]
+    tg = fscore.temp_guard(db)
+    if tg is None:
+        raise AnchorMissing("no type of the backend removes a temp file in its Drop impl")
+    G, PATHF, _ = tg
+    raw_prep = prep
+    prep = inline.inlined(db, prep)
     # temp name <- atomic RMW on tmp_file_counter
     rmw = [(bi, t) for bi, t in prep.calls() if "sync::atomic::Atomic" in callee_def(t)]
     names = [short(callee_def(t)) for _, t in rmw]
     ok = False
-    lit_roots = [db.root_of(prep)]
+    lit_roots = [db.root_of(raw_prep)]
     for bi, si, st in prep.stmts():
         rv = st["rv"]
-        if rv["k"] == "agg" and rv.get("adt", "").endswith("::FileWriter"):
+        if rv["k"] == "agg" and rv.get("adt", "").rsplit("::", 1)[-1] == G:
             m = dict(zip(rv["fields"], rv["ops"]))
-            sl = flow.backward(prep, m["tmp_path"], at=bi)
+            sl = flow.backward(prep, m[PATHF], at=bi)
             # the name may be produced by a helper of the backend (`self.next_tmp_path()?`): its return value is part of the derivation
             producers = _path_producers(db, prep, sl)
             all_calls = [t for _, t, _ in sl.calls] + [t for pb, psl in producers for _, t, _ in psl.calls]
@@ -269,7 +288,7 @@ def rule_r4(chk, db, conf):
                 ("FileSystem", "tmp_file_counter") in all_fields
             rmw += [(0, t) for t in all_calls if "sync::atomic::Atomic" in callee_def(t) and (0, t) not in rmw]
             names = [short(callee_def(t)) for _, t in rmw]
-            conf_ok = any(callee_def(t) in conf for t in all_calls)
+            conf_ok = any(callee_def(t) in conf or callee_def(t).endswith("Absolutize::absolutize_virtually") for t in all_calls)
             lit_roots += [db.root_of(pb) for pb, _ in producers]
             chk.verdict(conf_ok, "R4", "temp-path-confined", prep.loc(bi), "the temp path does not go through the confinement function", nontrivial=False)
     chk.verdict(ok, "R4", "distinct-temp-names", prep.loc(rmw[0][0]) if rmw else prep.loc(),
